@@ -82,6 +82,11 @@ CF = 'contracts/c3dframe.c'
 RC = 'contracts/records.c'
 
 UNITS = [
+    U('Parameter_write_char1d', RC, 'h_Parameter_write_char1d', ['Parameter__write/contract_Parameter__write'],
+      ['C03', 'C04', 'C12', 'C13', 'C14', 'C17', 'C10'],
+      replace=['vf_stream_write/contract_vf_stream_write', 'ezc3d__toUpper/contract_ezc3d__toUpper'], unwind=5, timeout=1800,
+      tier='thorough', sat='kissat', level='PB',
+      bound='one-dimensional character parameter of declared width 2..255, name <= 127, description <= 255 (format capacity)'),
     U('Parameters_read', RD, 'h_Parameters_read', ['Parameters__ctor__c3d/contract_Parameters__ctor__c3d'],
       ['C02', 'C13', 'C16', 'C18'],
       replace=['c3d__readUint/contract_c3d__readUint', 'c3d__readInt/contract_c3d__readInt', 'Group__read/contract_any_Group__read',
@@ -92,7 +97,8 @@ UNITS = [
       assumes=['termination of the record walker is not proved (no decreases clause on the outer loop)',
                'Group::read / Group::parameter(file) are abstracted by their possible outcomes']),
     U('Group_write', RC, 'h_Group_write', ['Group__write/contract_Group__write'], ['C01', 'C03', 'C04', 'C13', 'C14', 'C17', 'C10', 'C18'],
-      replace=['vf_stream_write/contract_vf_stream_write', 'ezc3d__toUpper/contract_ezc3d__toUpper'], unwind=5, timeout=900,
+      replace=['vf_stream_write/contract_vf_stream_write', 'ezc3d__toUpper/contract_ezc3d__toUpper'], unwind=5, timeout=1800,
+      tier='thorough', sat='kissat',
       level='PB', bound='name <= 127 and description <= 255 characters (format capacity); group without parameters'),
     U('Group_write_limits', RC, 'h_L_Group_write', ['Group__write/contract_L_Group__write'], ['C17'],
       replace=['vf_stream_write/contract_vf_stream_write', 'ezc3d__toUpper/contract_ezc3d__toUpper'], unwind=5, timeout=900,
